@@ -26,7 +26,8 @@ PROPERTY = 'C19'
 LEVEL = 'exploration'
 RULE = ('cases: (shape) uid shape x logger kind x message/argument shape x MAC placement on '
         'the capture layer (initialize_record_handler / get_record_logger_for) and on whole '
-        'Test runs (test.logger, plug logger, state logger, framework logger); (sched) a thread '
+        'Test runs (test.logger, plug logger, state logger, framework logger), also with console '
+        'logging (-vv) switched on; (sched) a thread '
         'that logs through run B / ends run B / starts a run is paused at every reached line '
         'of openhtf/util/logs.py while another run ends / starts / logs, then released, and '
         'every run still open logs once more; (stress) two runs logging from 2-3 threads each '
@@ -58,7 +59,8 @@ LOGGER_KINDS = ['record', 'child', 'grandchild', 'phase', 'plug', 'framework',
 MACS = ['f8:8f:ca:12:34:56', 'F8:8F:CA:AB:CD:EF', '00:11:22:33:44:55']
 MSG_SHAPES = ['plain', 'percent_args', 'tuple_arg', 'mapping_args', 'no_args_percent',
               'nonstr_msg', 'nonstr_arg', 'mac_in_msg', 'mac_in_arg', 'mac_split_args',
-              'mac_in_nonstr_arg', 'mac_in_mapping', 'mac_twice', 'unicode']
+              'mac_in_nonstr_arg', 'mac_in_mapping', 'mac_twice', 'unicode',
+              'mac_after_plain_same_format']
 
 MAC_REF = re.compile(r'(?<![0-9A-Fa-f:])((?:[0-9A-Fa-f]{2}:){3})'
                      r'[0-9A-Fa-f]{2}:[0-9A-Fa-f]{2}:[0-9A-Fa-f]{2}(?![0-9A-Fa-f:])')
@@ -93,6 +95,11 @@ def enumerated(tier):
         yield {'k': 'shape', 'uid': 0, 'kind': kind, 'shape': shape, 'mac': mi}
   for shape in MSG_SHAPES:
     yield {'k': 'test', 'shape': shape}
+  # with console logging switched on (-vv): a handler ahead of the record handlers
+  for shape in ('plain', 'percent_args', 'mac_in_arg', 'nonstr_arg'):
+    for kind in LOGGER_KINDS:
+      yield {'k': 'shape', 'uid': 0, 'kind': kind, 'shape': shape, 'cli': True}
+    yield {'k': 'test', 'shape': shape, 'cli': True}
   for action in ('end_a', 'start_c', 'log_a', 'end_a_end_c'):
     for op in ('log', 'close', 'start'):
       for idx in range(60):
@@ -181,6 +188,12 @@ def _emit(logger, shape, mid, mac=None, level=logging.INFO):
   elif shape == 'mac_twice':
     logger.log(level, '%s %s and %s.', tag, mac, MACS[2]); line = frame.f_lineno
     text = '%s %s and %s.' % (tag, mac, MACS[2])
+  elif shape == 'mac_after_plain_same_format':
+    # one log statement used first with a harmless value, then with a MAC
+    fmt = '%s device identified as %s'
+    logger.log(level, fmt, 'earlier-message', 'serial-0042')
+    logger.log(level, fmt, tag, mac); line = frame.f_lineno
+    text = '%s device identified as %s' % (tag, mac)
   elif shape == 'unicode':
     logger.log(level, '%s üñí %s', tag, 'ça'); line = frame.f_lineno
     text = '%s üñí ça' % tag
@@ -313,7 +326,38 @@ def logger_for(kind, run, other_uid):
   raise ValueError(kind)
 
 
+class cli_logging:
+  """What `-vv` sets up: a console handler with the CLI formatter and the MAC
+  filter, installed ahead of the record handlers (here writing to a buffer)."""
+
+  def __init__(self, on):
+    self.on = on
+
+  def __enter__(self):
+    if self.on:
+      import io
+      logs = _S['logs']
+      self.h = logging.StreamHandler(stream=io.StringIO())
+      self.h.setFormatter(logs.CliFormatter())
+      self.h.setLevel(logging.DEBUG)
+      self.h.addFilter(logs.MAC_FILTER)
+      lg = logging.getLogger('openhtf')
+      lg.handlers = [self.h] + list(lg.handlers)
+    return self
+
+  def __exit__(self, *exc):
+    if self.on:
+      lg = logging.getLogger('openhtf')
+      lg.handlers = [h for h in lg.handlers if h is not self.h]
+    return False
+
+
 def run_shape(case):
+  with cli_logging(case.get('cli')):
+    return _run_shape(case)
+
+
+def _run_shape(case):
   viol, c = [], new_counters()
   uid = UIDS[case['uid']]
   if '.' in uid:
@@ -359,6 +403,11 @@ def run_shape(case):
 
 
 def run_test(case):
+  with cli_logging(case.get('cli')):
+    return _run_test(case)
+
+
+def _run_test(case):
   """Whole Test run: test.logger, plug logger, state logger, framework logger."""
   H = pm.htf()
   viol, c = [], new_counters()
